@@ -208,7 +208,7 @@ def combos(tier):
     if tier == "quick":
         return [(1, 1, "float", "size_t", "float"), (1, 3, "double", "int", "float"), (2, 1, "float", "size_t", "double"), (2, 2, "double", "unsigned", "double"),
                 (2, 3, "float", "int", "float"), (3, 1, "double", "size_t", "float"), (3, 2, "float", "size_t", "float"), (3, 3, "float", "size_t", "float"),
-                (4, 2, "float", "size_t", "double"), (1, 4, "float", "size_t", "float")]
+                (4, 2, "float", "size_t", "double"), (1, 4, "float", "size_t", "float"), (4, 1, "double", "int", "float")]
     out = []
     for N in (1, 2, 3, 4, 5):
         for M in (1, 2, 3, 4):
